@@ -7,7 +7,7 @@ package forwarder
 //
 //vf:assume C03: a CONNECT through the real connection loop to a scripted target connection; the client sends 0..4 (quick) / 0..8 (thorough) symbolic payload bytes in the same segment as the request head, the target sends 0..4/0..8 symbolic bytes; both sides then half-close; reads deliver 1 byte or everything at a time
 //vf:assume C03: read-header-timeout unset or 1 minute, idle and whole-request read timeouts unset (the defaults): with a whole-request read timeout configured its deadline stays armed by that option's definition, which is outside
-//vf:assume C03: the two copy directions run one after the other (single schedule); simultaneous progress, FIN ordering on real sockets, the forced close after the grace period, SOCKS5 and TLS-terminating variants are outside
+//vf:assume C03: the two copy directions run one after the other (single schedule); simultaneous progress, FIN ordering on real sockets, the forced close after the grace period and real TLS are outside (SOCKS5: vfH_C03_socks5; https upstream under the transparent-TLS model: vfH_C03_upstream_tls)
 
 import (
 	"bufio"
@@ -193,4 +193,76 @@ func vfH_C03_upgrade() {
 	vfrt.Assert(client.Closed >= 1, "upgrade/client-socket-closed-when-done")
 	dl := client.ReadDeadlines
 	vfrt.Assert(len(dl) > 0 && dl[len(dl)-1].IsZero(), "upgrade/no-read-deadline-armed-on-the-client-socket-while-tunnelling")
+}
+
+//vf:assume C03-socks5: CONNECT through a socks5:// upstream (with or without user:password): the scripted SOCKS5 server answers the method selection, the optional user/password sub-negotiation and the connect request, and sends 0..3 symbolic bytes right behind its reply; the client sends 0..3 symbolic bytes with the request head; the SOCKS client is the real golang.org/x/net/proxy code (interpreted)
+
+//vf:harness property=C03 nopanic reach=socks5-tunnel,socks5-early-server-data,socks5-authenticated steps=8000000
+func vfH_C03_socks5() {
+	cfg := HTTPProxyConfig{}
+	cfg.Name = "fw"
+	cfg.ProxyLocalhost = AllowProxyLocalhost
+	withAuth := vfrt.Choice("upstream-credentials", 2) == 1
+	us := "socks5://proxy.internal:1080"
+	if withAuth {
+		vfrt.Reach("socks5-authenticated")
+		us = "socks5://u:pw@proxy.internal:1080"
+	}
+	u, _ := url.Parse(us)
+	cfg.UpstreamProxy = u
+	hp := vfNewHTTPProxy(cfg)
+	up := vfrt.Bytes("client-payload", vfrt.Choice("client-len", 4))
+	down := vfrt.Bytes("target-payload", vfrt.Choice("target-len", 4))
+	var script []byte
+	if withAuth {
+		script = append(script, 5, 2) // method: username/password
+		script = append(script, 1, 0) // sub-negotiation: success
+	} else {
+		script = append(script, 5, 0) // method: no authentication
+	}
+	script = append(script, 5, 0, 0, 1, 0, 0, 0, 0, 0, 0) // connect reply: succeeded, bound 0.0.0.0:0
+	upstream := martian.NewVfConn(append(script, down...))
+	if vfrt.Choice("upstream-one-byte-reads", 2) == 1 {
+		upstream.Chunk = 1
+	}
+	var dialed []string
+	hp.proxy.DialContext = func(_ context.Context, network, addr string) (net.Conn, error) {
+		dialed = append(dialed, addr)
+		return upstream, nil
+	}
+	client := martian.NewVfConn(append([]byte("CONNECT example.com:443 HTTP/1.1\r\nHost: example.com:443\r\n\r\n"), up...))
+	vfrt.Reach("socks5-tunnel")
+	if len(down) > 0 {
+		vfrt.Reach("socks5-early-server-data")
+	}
+	martian.VfServeConn(hp.proxy, client)
+
+	vfrt.Assert(len(dialed) == 1 && dialed[0] == "proxy.internal:1080", "socks5/only-the-configured-proxy-is-contacted")
+	// what the SOCKS server received: greeting, (credentials,) a CONNECT for the requested name and port, then the client's bytes
+	got := upstream.Out.Bytes()
+	var want []byte
+	if withAuth {
+		want = append(want, 5, 2, 0, 2)
+		want = append(want, 1, 1, 'u', 2, 'p', 'w')
+	} else {
+		want = append(want, 5, 1, 0)
+	}
+	want = append(want, 5, 1, 0, 3, 11)
+	want = append(want, []byte("example.com")...)
+	want = append(want, 0x01, 0xbb)
+	vfrt.Assert(len(got) >= len(want) && bytes.Equal(got[:len(want)], want), "socks5/negotiation-and-connect-request-for-the-requested-authority")
+	if len(got) < len(want) {
+		return
+	}
+	vfrt.Assert(bytes.Equal(got[len(want):], up), "socks5/client-bytes-follow-the-negotiation-exactly-once")
+	br := bufio.NewReader(bytes.NewReader(client.Out.Bytes()))
+	res, err := http.ReadResponse(br, &http.Request{Method: "CONNECT"})
+	vfrt.Assert(err == nil && res.StatusCode == 200, "socks5/2xx-reply-first")
+	if err != nil {
+		return
+	}
+	rest := make([]byte, br.Buffered())
+	br.Read(rest)
+	vfrt.Assert(bytes.Equal(rest, down), "socks5/bytes-behind-the-socks-reply-reach-the-client")
+	vfrt.Assert(client.Closed >= 1 && upstream.Closed >= 1, "socks5/both-sockets-closed")
 }
